@@ -10,6 +10,10 @@ from __future__ import annotations
 
 import itertools
 from collections import Counter
+from dataclasses import dataclass
+from typing import Any
+
+from entity_query_language import symbol
 
 from .. import cond as C
 from .. import data as D
@@ -43,13 +47,21 @@ def floors(tier):
             "cls:kind:predform": 300, "cls:kind:flatten": 300, "cls:kind:concat": 200, "cls:falsy_in_result": 800,
             "cls:falsy_selected_output": 100, "cls:one_expression_object_as_value_and_condition_in_one_query": 100, "cls:falsy_constructor_argument": 150, "cls:falsy_field_constraint": 150,
             "cls:falsy_flattened_element": 150, "cls:condition_position_falsy": 80,
-            "cls:kind:shared": 200, "cls:shared_expression_condition_and_value": 50}
+            "cls:kind:shared": 200, "cls:kind:expr_domain": 200, "cls:falsy_value_in_expression_domain": 150, "cls:shared_expression_condition_and_value": 50}
 
 
 def cases(spec, ctx):
     for i in range(spec["n"]):
         rng = ctx.rng(spec["sub"], i)
-        kind = rng.choice(["single", "single", "multi", "multi", "rule", "predform", "flatten", "concat", "shared"])
+        kind = rng.choice(["single", "single", "multi", "multi", "rule", "predform", "flatten", "concat", "shared", "expr_domain"])
+        if kind == "expr_domain":
+            parents = [{"k": rng.choice([0, 1, "", None, False, 2, "x"]),
+                        "items": [rng.choice([0, 1, "", "x", None, False, 2]) for _ in range(rng.randint(0, 4))]}
+                       for j in range(rng.randint(1, 4))]
+            yield {"kind": kind, "parents": parents, "expr": rng.choice(["attribute", "flatten", "flatten"]),
+                   "how": rng.choice(["let", "from"]), "join": rng.random() < 0.5, "outer": rng.sample([0, 1, "", None, False, 2, "q"], 4),
+                   "caching": rng.random() < 0.7}
+            continue
         if kind == "shared":
             uses = [rng.choice(["condition", "operand_eq", "operand_in", "selected", "selected", "value_then_condition",
                                 "condition_then_value", "value_or_condition", "selected_and_condition"])
@@ -374,7 +386,65 @@ def _check_shared(case, ctx):
     return {"attribute": attr, "uses": case["uses"], "evaluation_order": case["eval_order"], "log": log}
 
 
-SUB = {"shared": _check_shared, "single": _check_single, "multi": _check_multi, "rule": _check_rule, "predform": _check_predform,
+@symbol
+@dataclass(eq=False)
+class Code:
+    """only the type of a variable whose domain is a value expression; never instantiated"""
+    v: Any = None
+
+
+@symbol
+@dataclass(eq=False)
+class Holder:
+    v: Any = None
+
+
+def _check_expr_domain(case, ctx):
+    """a value expression (attribute of a variable / flatten of its collection) given as the DOMAIN of another variable:
+    the variable ranges over all its values, falsy ones included; optionally joined with holders (h.v == code)"""
+    from entity_query_language import symbolic_mode, an, entity, set_of, let, From
+    from entity_query_language.entity import flatten
+    from entity_query_language.cache_data import enable_caching, disable_caching
+    ps = [c16.Par(p["k"], list(p["items"])) for p in case["parents"]]
+    holders = [Holder(v) for v in case["outer"]]
+    vals = [p.k for p in ps] if case["expr"] == "attribute" else [x for p in ps for x in p.items]
+    key = lambda v: (type(v).__name__, repr(v))
+    if case["join"]:
+        exp = {(i, key(v)) for i, h in enumerate(holders) for v in vals if h.v == v}
+    else:
+        exp = {key(v) for v in vals}
+    falsy = any(_is_falsy(v) for v in vals)
+    if falsy:
+        ctx.cls("cls:falsy_value_in_expression_domain")
+    if exp and falsy:
+        ctx.nontrivial()
+    (enable_caching if case["caching"] else disable_caching)()
+    try:
+        with symbolic_mode():
+            p = let(c16.Par, ps)
+            src = p.k if case["expr"] == "attribute" else flatten(p.items)
+            code = let(Code, domain=src) if case["how"] == "let" else Code(From(src))
+            if case["join"]:
+                h = let(Holder, holders)
+                q = an(set_of([h, code], h.v == code))
+            else:
+                q = an(entity(code))
+        for rnd in range(2):
+            if case["join"]:
+                hidx = {id(h_): i for i, h_ in enumerate(holders)}
+                got = {(hidx[id(r[h])], key(r[code])) for r in q.evaluate()}
+            else:
+                got = {key(r) for r in q.evaluate()}
+            if got != exp:
+                ctx.fail("EXPR_DOMAIN:" + ("missing" if exp - got else "") + ("+extra" if got - exp else ""),
+                         {"evaluation": rnd + 1, "missing": sorted(exp - got, key=str)[:8], "extra": sorted(got - exp, key=str)[:8]})
+                break
+    finally:
+        enable_caching()
+    return {"expected": sorted(exp, key=str)[:5]}
+
+
+SUB = {"expr_domain": _check_expr_domain, "shared": _check_shared, "single": _check_single, "multi": _check_multi, "rule": _check_rule, "predform": _check_predform,
        "flatten": _check_flatten, "concat": _check_concat}
 
 
